@@ -29,7 +29,8 @@ type liveIn struct {
 
 // liveOp is one kind of call on the shared instance.
 type liveOp struct {
-	// do makes the real call(s) with private copies of the arguments: outs are
+	// do makes the real call(s) with exactly the slices of in (the caller hands
+	// it a private copy, and hands the SAME copy again for a repeated call): outs are
 	// the slices the package returned (they are retained), canon the values
 	// compared with the reference (for randomised schemes a normal form).
 	do     func(in liveIn) (outs, canon [][]byte, err error, rt string)
@@ -88,18 +89,18 @@ func mkLive(cs Case, seed int64) (op liveOp, gen func(w, i int) liveIn) {
 		op.do = func(in liveIn) (outs, canon [][]byte, err error, rt string) {
 			var ct, tag, back []byte
 			if cs.Fn == "Encrypt" {
-				ct, tag, err = kit.Encrypt(cp(in.msg), cs.Alg, jk, cp(in.nonce), cp(in.aad))
+				ct, tag, err = kit.Encrypt(in.msg, cs.Alg, jk, in.nonce, in.aad)
 			} else {
-				ct, tag, err = kit.EncryptSymmetric(cp(in.msg), cs.Alg, jk, cp(in.nonce), cp(in.aad))
+				ct, tag, err = kit.EncryptSymmetric(in.msg, cs.Alg, jk, in.nonce, in.aad)
 			}
 			if err != nil {
 				return nil, nil, err, "na"
 			}
 			var derr error
 			if cs.Fn == "Encrypt" {
-				back, derr = kit.Decrypt(cp(ct), cs.Alg, jk, cp(in.nonce), cp(tag), cp(in.aad))
+				back, derr = kit.Decrypt(cp(ct), cs.Alg, jk, in.nonce, cp(tag), in.aad)
 			} else {
-				back, derr = kit.DecryptSymmetric(cp(ct), cs.Alg, jk, cp(in.nonce), cp(tag), cp(in.aad))
+				back, derr = kit.DecryptSymmetric(cp(ct), cs.Alg, jk, in.nonce, cp(tag), in.aad)
 			}
 			return [][]byte{ct, tag, back}, [][]byte{ct, tag}, nil, yn(derr == nil && bytes.Equal(back, in.msg))
 		}
@@ -122,9 +123,9 @@ func mkLive(cs Case, seed int64) (op liveOp, gen func(w, i int) liveIn) {
 		raw := cref.Oct(cs.KeyBits / 8)
 		call := func(ct, nonce, tag, aad []byte) ([]byte, error) {
 			if cs.Fn == "Decrypt" {
-				return kit.Decrypt(cp(ct), cs.Alg, jk, cp(nonce), cp(tag), cp(aad))
+				return kit.Decrypt(ct, cs.Alg, jk, nonce, tag, aad)
 			}
-			return kit.DecryptSymmetric(cp(ct), cs.Alg, jk, cp(nonce), cp(tag), cp(aad))
+			return kit.DecryptSymmetric(ct, cs.Alg, jk, nonce, tag, aad)
 		}
 		op.do = func(in liveIn) (outs, canon [][]byte, err error, rt string) {
 			pt, err := call(in.ct, in.nonce, in.tag, in.aad)
@@ -136,9 +137,9 @@ func mkLive(cs Case, seed int64) (op liveOp, gen func(w, i int) liveIn) {
 		op.want = func(in liveIn) [][]byte { return [][]byte{in.msg} }
 		op.tamper = func(in liveIn) {
 			if len(in.tag) > 0 {
-				_, _ = call(in.ct, in.nonce, flip(in.tag, 0), in.aad)
+				_, _ = call(cp(in.ct), cp(in.nonce), flip(in.tag, 0), cp(in.aad))
 			} else {
-				_, _ = call(flip(in.ct, 3), in.nonce, in.tag, in.aad)
+				_, _ = call(flip(in.ct, 3), cp(in.nonce), cp(in.tag), cp(in.aad))
 			}
 		}
 		return op, func(w, i int) liveIn {
@@ -158,8 +159,8 @@ func mkLive(cs Case, seed int64) (op liveOp, gen func(w, i int) liveIn) {
 		}
 		if cs.Fn == "aescbcaead.Seal" {
 			op.do = func(in liveIn) (outs, canon [][]byte, err error, rt string) {
-				out := aead.Seal(nil, cp(in.nonce), cp(in.msg), cp(in.aad))
-				back, oerr := aead.Open(nil, cp(in.nonce), cp(out), cp(in.aad))
+				out := aead.Seal(nil, in.nonce, in.msg, in.aad)
+				back, oerr := aead.Open(nil, in.nonce, cp(out), in.aad)
 				return [][]byte{out, back}, [][]byte{out}, nil, yn(oerr == nil && bytes.Equal(back, in.msg))
 			}
 			op.want = func(in liveIn) [][]byte {
@@ -172,7 +173,7 @@ func mkLive(cs Case, seed int64) (op liveOp, gen func(w, i int) liveIn) {
 			return op, base
 		}
 		op.do = func(in liveIn) (outs, canon [][]byte, err error, rt string) {
-			pt, err := aead.Open(nil, cp(in.nonce), cp(in.ct), cp(in.aad))
+			pt, err := aead.Open(nil, in.nonce, in.ct, in.aad)
 			if err != nil {
 				return nil, nil, err, "na"
 			}
@@ -197,7 +198,7 @@ func mkLive(cs Case, seed int64) (op liveOp, gen func(w, i int) liveIn) {
 		}
 		if cs.Fn == "aeskw.Wrap" {
 			op.do = func(in liveIn) (outs, canon [][]byte, err error, rt string) {
-				out, err := aeskw.Wrap(blk, cp(in.msg))
+				out, err := aeskw.Wrap(blk, in.msg)
 				if err != nil {
 					return nil, nil, err, "na"
 				}
@@ -214,7 +215,7 @@ func mkLive(cs Case, seed int64) (op liveOp, gen func(w, i int) liveIn) {
 			return op, base
 		}
 		op.do = func(in liveIn) (outs, canon [][]byte, err error, rt string) {
-			out, err := aeskw.Unwrap(blk, cp(in.ct))
+			out, err := aeskw.Unwrap(blk, in.ct)
 			if err != nil {
 				return nil, nil, err, "na"
 			}
@@ -237,11 +238,11 @@ func mkLive(cs Case, seed int64) (op liveOp, gen func(w, i int) liveIn) {
 		}
 		priv := cref.RSA(cs.KeyBits, 0)
 		op.do = func(in liveIn) (outs, canon [][]byte, err error, rt string) {
-			ct, err := kit.EncryptPublicKey(cp(in.msg), cs.Alg, jk, cp(in.aad))
+			ct, err := kit.EncryptPublicKey(in.msg, cs.Alg, jk, in.aad)
 			if err != nil {
 				return nil, nil, err, "na"
 			}
-			back, derr := kit.DecryptPrivateKey(cp(ct), cs.Alg, jk, cp(in.aad))
+			back, derr := kit.DecryptPrivateKey(cp(ct), cs.Alg, jk, in.aad)
 			got, rerr := refRSADecrypt(cs, priv, ct, in.aad)
 			if rerr != nil {
 				got = []byte("reference cannot decrypt")
@@ -257,7 +258,7 @@ func mkLive(cs Case, seed int64) (op liveOp, gen func(w, i int) liveIn) {
 		}
 		pub := &cref.RSA(cs.KeyBits, 0).PublicKey
 		op.do = func(in liveIn) (outs, canon [][]byte, err error, rt string) {
-			pt, err := kit.DecryptPrivateKey(cp(in.ct), cs.Alg, jk, cp(in.aad))
+			pt, err := kit.DecryptPrivateKey(in.ct, cs.Alg, jk, in.aad)
 			if err != nil {
 				return nil, nil, err, "na"
 			}
@@ -282,11 +283,11 @@ func mkLive(cs Case, seed int64) (op liveOp, gen func(w, i int) liveIn) {
 		rawPriv, rawPub := cref.Raw(cs.KeyKind, cs.KeyBits, 0), cref.Raw(pubKind(cs.KeyKind), cs.KeyBits, 0)
 		det := cs.Fam == "rsapkcs" || cs.Fam == "eddsa"
 		op.do = func(in liveIn) (outs, canon [][]byte, err error, rt string) {
-			sig, err := kit.SignPrivateKey(cp(in.msg), cs.Alg, jk)
+			sig, err := kit.SignPrivateKey(in.msg, cs.Alg, jk)
 			if err != nil {
 				return nil, nil, err, "na"
 			}
-			valid, verr := kit.VerifyPublicKey(cp(in.msg), cp(sig), cs.Alg, pubJK)
+			valid, verr := kit.VerifyPublicKey(in.msg, cp(sig), cs.Alg, pubJK)
 			canon = [][]byte{sig}
 			if !det {
 				v, _ := refVerify(cs, rawPub, in.msg, sig)
@@ -313,6 +314,10 @@ type liveRes struct {
 	outs, canon [][]byte
 	class, rt   string
 	detail      string
+}
+
+func copyIn(in liveIn) liveIn {
+	return liveIn{msg: cp(in.msg), nonce: cp(in.nonce), aad: cp(in.aad), ct: cp(in.ct), tag: cp(in.tag)}
 }
 
 func liveCall(op liveOp, in liveIn) (r liveRes) {
@@ -353,7 +358,7 @@ func execLive(cs Case, seed int64) (r run) {
 			in := gen(w, i)
 			ins[w] = append(ins[w], in)
 			wants[w] = append(wants[w], op.want(in))
-			a := liveCall(op, in) // the call made alone
+			a := liveCall(op, copyIn(in)) // the call made alone
 			a.outs = nil
 			for j := range a.canon { // private copies: the comparison must not depend on what later calls do to returned memory
 				a.canon[j] = cp(a.canon[j])
@@ -392,9 +397,15 @@ func execLive(cs Case, seed int64) (r run) {
 			<-start
 			for i := 0; i < iters; i++ {
 				in := ins[w][i]
-				got := liveCall(op, in)
+				priv := copyIn(in)
+				got := liveCall(op, priv)
 				a := alone[w][i]
 				same := got.class == a.class && eqAll(got.canon, a.canon)
+				again := true // the same call with the very same slices, 0-2 more times
+				for rep := 0; rep < i%3; rep++ {
+					g2 := liveCall(op, priv)
+					again = again && g2.class == a.class && eqAll(g2.canon, a.canon)
+				}
 				ref := "na"
 				if got.class == "ok" {
 					ref = yn(eqAll(got.canon, wants[w][i]))
@@ -414,15 +425,15 @@ func execLive(cs Case, seed int64) (r run) {
 					guard(func() { op.tamper(in) })
 					kept = kept && intact()
 				}
-				c := call{W: w, I: i, Outcome: got.class, Rt: got.rt, Ref: ref, Noout: "na", Same: yn(same), Kept: yn(kept), Detail: got.detail}
+				c := call{W: w, I: i, Outcome: got.class, Rt: got.rt, Ref: ref, Noout: "na", Same: yn(same), Kept: yn(kept), Again: yn(again), Detail: got.detail}
 				if c.Rt == "" {
 					c.Rt = "na"
 				}
-				dev := !same || !kept || c.Outcome != "ok" || c.Ref == "no" || c.Rt == "no"
+				dev := !same || !kept || !again || c.Outcome != "ok" || c.Ref == "no" || c.Rt == "no"
 				if dev {
 					res[w].sum.Deviating++
 				}
-				if i < 2 || (dev && len(res[w].calls) < 8) {
+				if i < 3 || (dev && len(res[w].calls) < 8) {
 					res[w].calls = append(res[w].calls, c)
 					if dev {
 						res[w].sum.Deviating-- // reported as an event of its own
